@@ -127,7 +127,7 @@ def c02_judge_line(x):
     ready = ready + pcalls - 1 if pcalls >= 1 else ready
     closed = "C" in d.get("flags", "") and "T" not in d.get("flags", "")
     b = lambda v: "1" if v else "0"
-    return (f"J c02 {b(exc)} {b(probe_ok)} {b(closed)} {b(x.mode == 'rst')} {pre} {ready} {onerr} {eoc} {n200} {nerr} {b(framed)} "
+    return (f"J c02 {b(exc)} {b(probe_ok)} {b(closed)} {b(x.mode.startswith('rst'))} {pre} {ready} {onerr} {eoc} {n200} {nerr} {b(framed)} "
             + x.mline)
 
 
@@ -222,7 +222,7 @@ def fwd_judge_line(x, kind):
     probe_ok = d.get("probe") == "ok"
     closed = "C" in d.get("flags", "") and "T" not in d.get("flags", "")
     b = lambda v: "1" if v else "0"
-    return f"J fwd {b(exc)} {b(probe_ok)} {b(closed)} {b(x.mode == 'rst')} {b(kind == 'wf')} {b(answered)}"
+    return f"J fwd {b(exc)} {b(probe_ok)} {b(closed)} {b(x.mode.startswith('rst'))} {b(kind == 'wf')} {b(answered)}"
 
 
 def pick_diverse(bad, n):
